@@ -113,10 +113,33 @@ def run(ctx):
             exp = b + dt.timedelta(seconds=sign * n * LIN[u])
             s = ("in %s %ss" % (str(n).replace(".", R.choice([".", ","])), u)) if sign > 0 else ("%s %ss ago" % (n, u))
             cases.append({"s": s, "langs": ["en"], "settings": st0, "expect": expect_str(exp, period="day"), "stratum": "decimal"})
+        # decimals in one unit of a two-unit phrase (several units add up; both decimal marks the relative patterns accept, both directions)
+        for _ in range(2 if tier == "quick" else 10):
+            u1, u2 = R.choice([("hour", "minute"), ("minute", "second"), ("hour", "second")])
+            n1 = R.choice([0.5, 1.5, 2.25, 10.75]); n2 = R.randint(2, 50); sign = R.choice([1, -1]); mark = R.choice([".", ","])
+            first = R.random() < 0.7          # which unit carries the decimal
+            a, b_ = (str(n1).replace(".", mark), str(n2)) if first else (str(n2), str(n1).replace(".", mark))
+            secs = (n1 * LIN[u1] + n2 * LIN[u2]) if first else (n2 * LIN[u1] + n1 * LIN[u2])
+            body = "%s %ss %s %ss" % (a, u1, b_, u2)
+            s = ("in " + body) if sign > 0 else (body + " ago")
+            cases.append({"s": s, "langs": ["en"], "settings": st0, "expect": expect_str(b + dt.timedelta(seconds=sign * secs), period="day"),
+                          "stratum": "decimal-multi", "_dm": (mark, first, sign),
+                          # what the recorded defect yields: the digits after the comma read as the count
+                          "_dm_wrong": expect_str(b + dt.timedelta(seconds=sign * ((int(str(n1).split(".")[1]) * LIN[u1] + n2 * LIN[u2]) if first
+                                                                                     else (n2 * LIN[u1] + int(str(n1).split(".")[1]) * LIN[u2]))), period="day")})
     # range ends: the answer must be None
     for b, s in [(D(1, 1, 2), "3 days ago"), (D(9999, 12, 30), "in 2 days"), (D(5, 1, 1), "1 decade ago"), (D(9990, 6, 1), "in 10 years"), (D(9999, 1, 31), "in 12 months")]:
         cases.append({"s": s, "langs": ["en"], "settings": {"RELATIVE_BASE": b, "TIMEZONE": "UTC"}, "expect": None, "stratum": "overflow"})
-    res = decide(ctx, cases, model_share=1.0)
+
+    def known_key(c, got):
+        # recorded defect: ',' is dropped when the phrase is split into words, so a decimal comma survives only in the count that the
+        # locale's relative pattern matches together with the direction word ('in N unit' = the first count, 'N unit ago' = the last);
+        # in any other position '1,5 hours' is read as '1 5 hours' = 5 hours.  The finding covers exactly that reading.
+        dm = c.get("_dm")
+        if dm and dm[0] == "," and ((dm[2] < 0 and dm[1]) or (dm[2] > 0 and not dm[1])) and isinstance(got, str) and got.startswith(c["_dm_wrong"]):
+            return {"rule": "decimal comma in a count that is not adjacent to the direction word of a multi-unit relative phrase"}
+        return None
+    res = decide(ctx, cases, model_share=1.0, known_key=known_key)
     # implicit now: base is the current instant expressed in TIMEZONE, then TO_TIMEZONE (bracketed clock)
     zones = ["UTC", "+0530", "-0800", "Europe/Paris", "America/New_York", "Asia/Kolkata", "Australia/Lord_Howe", "Asia/Tokyo"]
     pairs = [(a, b2) for a in zones for b2 in [None] + zones]
